@@ -204,6 +204,13 @@ def run(program, res, tier):
     for b_, _l in g.lexical_guards(ns):
         if not isinstance(b_.stmt, ast.If):
             continue
+        # ... nor may the functions of the step decide: which of them read the row order in the Pandas realisation is not what any of the library's
+        # name lists says (`_count()` is a running count, yet it is not among the names that *require* an order)
+        if depsmod.has_root(d.cond_roots(b_), "op.ops"):
+            res.fail_at("C27-S1", pe, "pandas-sort-skipped-by-function-list",
+                        f"the window sort runs only if `{unparse(b_.cond)[:80]}`, a test of the step's functions: an ordered window whose functions are not on that list "
+                        f"(_count(), a running count) is computed in the incoming row order — Pandas then disagrees with SQL's OVER (… ORDER BY …) and depends on the row order", b_.cond)
+            continue
         reads_rows = [x.id for x in ast.walk(b_.cond) if isinstance(x, ast.Name) and x.id in frames]
         if not reads_rows:
             continue
